@@ -306,7 +306,7 @@ func readTransfer(msg interface{}, r *bfe_bufio.Reader) (err error) {
 	}
 
 	// Transfer encoding, content length
-	t.TransferEncoding, err = fixTransferEncoding(t.RequestMethod, t.Header)
+	t.TransferEncoding, err = fixTransferEncoding(isResponse, t.RequestMethod, t.Header)
 	if err != nil {
 		return err
 	}
@@ -395,13 +395,30 @@ func chunked(te []string) bool { return len(te) > 0 && te[0] == "chunked" }
 func isIdentity(te []string) bool { return len(te) == 1 && te[0] == "identity" }
 
 // Sanitize transfer encoding
-func fixTransferEncoding(requestMethod string, header Header) ([]string, error) {
+func fixTransferEncoding(isResponse bool, requestMethod string, header Header) ([]string, error) {
 	raw, present := header["Transfer-Encoding"]
 	if !present {
 		return nil, nil
 	}
 
 	delete(header, "Transfer-Encoding")
+
+	if !isResponse {
+		// RFC 7230 3.3.3: a request whose Transfer-Encoding does not end
+		// in chunked cannot be framed reliably and must be refused. Like
+		// nginx and net/http, only a single Transfer-Encoding header field
+		// whose value is "chunked" is supported on requests.
+		if len(raw) != 1 {
+			return nil, &badStringError{"too many transfer encodings", strings.Join(raw, ",")}
+		}
+		if strings.ToLower(trimOWS(raw[0])) != "chunked" {
+			return nil, &badStringError{"unsupported transfer encoding", raw[0]}
+		}
+		// Chunked encoding trumps Content-Length. The Content-Length
+		// must not be forwarded (RFC 7230 3.3.3).
+		delete(header, "Content-Length")
+		return []string{"chunked"}, nil
+	}
 
 	encodings := strings.Split(raw[0], ",")
 	te := make([]string, 0, len(encodings))
@@ -458,7 +475,22 @@ func fixLength(isResponse bool, status int, requestMethod string, header Header,
 	}
 
 	// Logic based on Content-Length
-	cl := strings.TrimSpace(header.GetDirect("Content-Length"))
+	contentLens := header["Content-Length"]
+	if len(contentLens) > 1 {
+		// RFC 7230 3.3.2/3.3.3: several Content-Length values are only
+		// acceptable when they are all the same; then keep one of them.
+		first := trimOWS(contentLens[0])
+		for _, ct := range contentLens[1:] {
+			if first != trimOWS(ct) {
+				return -1, &badStringError{"conflicting Content-Length", strings.Join(contentLens, ",")}
+			}
+		}
+		header["Content-Length"] = []string{first}
+	}
+	if !isResponse && len(contentLens) > 0 && trimOWS(contentLens[0]) == "" {
+		return -1, &badStringError{"bad Content-Length", contentLens[0]}
+	}
+	cl := trimOWS(header.GetDirect("Content-Length"))
 	if cl != "" {
 		n, err := parseContentLength(cl)
 		if err != nil {
@@ -686,17 +718,24 @@ func (bl bodyLocked) Read(p []byte) (n int, err error) {
 	return bl.b.readLocked(p)
 }
 
+// trimOWS removes the optional white space (SP / HTAB, RFC 7230 3.2.3)
+// around a header field value.
+func trimOWS(s string) string {
+	return strings.Trim(s, " \t")
+}
+
 // parseContentLength trims whitespace from s and returns -1 if no value
 // is set, or the value if it's >= 0.
 func parseContentLength(cl string) (int64, error) {
-	cl = strings.TrimSpace(cl)
+	cl = trimOWS(cl)
 	if cl == "" {
 		return -1, nil
 	}
-	n, err := strconv.ParseInt(cl, 10, 64)
-	if err != nil || n < 0 {
+	// Content-Length = 1*DIGIT (RFC 7230 3.3.2): no sign, no other white space
+	n, err := strconv.ParseUint(cl, 10, 63)
+	if err != nil {
 		return 0, &badStringError{"bad Content-Length", cl}
 	}
-	return n, nil
+	return int64(n), nil
 
 }
